@@ -224,7 +224,8 @@ def gen_buggify(seed, opts=None):
     for ep in ('client', 'server'):
         pts = [p for p in ENTRY_BY_KIND.values() if rng.random() < 0.25]
         if pts:
-            plan[ep]['buggify'] = {p: True for p in pts}
+            plan[ep]['buggify'] = {p: _pick(rng, [(3, 'app'), (1, 'keyerror_int'), (1, 'oserror'), (1, 'value_dict'), (1, 'noargs'),
+                                                   (1, 'odd'), (1, 'bytes_arg')]) for p in pts}
     for ia in plan['interactions']:
         for sc in (ia.get('resp'), ia.get('pub')):
             if sc and sc.get('src') == 'manual' and rng.random() < 0.15:
